@@ -416,6 +416,28 @@ func addShape(t *rapid.T, g *G, o Opts) {
 			if rapid.Bool().Draw(t, "mFirst") {
 				rules[0], rules[1] = rules[1], rules[0]
 			}
+		} else if o.Prec && ri(t, 0, 3, "foreign") == 0 {
+			// a shift that belongs to productions of TWO rules: "e = e OP e @left(n) | post | X" and
+			// "post = e OP OP @left(n)". After "e OP e" on OP the shift continues both e's own
+			// production and post's; precedence only speaks about productions of one rule.
+			if pr[0].Prec == 0 {
+				pr[0].Prec = 1
+			}
+			post := Rule{Name: hn("p"), Prods: []Prod{{Terms: []Term{ruleTerm(hn("e")), tk(0), tk(0)}, Prec: pr[0].Prec, Right: pr[0].Right}}}
+			if ri(t, 0, 2, "foreignlvl") == 0 {
+				post.Prods[0].Prec++ // ... also with a different level, and
+			}
+			if ri(t, 0, 3, "foreignq") == 0 {
+				post.Prods[0].Prec, post.Prods[0].Right = 0, false // ... without a qualifier
+			}
+			pr = []Prod{pr[0], P(ruleTerm(hn("p"))), pr[2]}
+			if rapid.Bool().Draw(t, "postFirstAlt") {
+				pr[0], pr[1] = pr[1], pr[0]
+			}
+			rules = []Rule{{Name: hn("e"), Prods: pr}, post}
+			if rapid.Bool().Draw(t, "postFirst") {
+				rules[0], rules[1] = rules[1], rules[0]
+			}
 		}
 	case 9: // the same element under the same sugar twice, with different separators / contexts
 		entry = ruleTerm(hn("s"))
